@@ -196,6 +196,9 @@ type Case struct {
 	Data   []byte `json:"data"`
 	Header bool   `json:"header"`
 	Status int    `json:"status,omitempty"`
+	// Prior (CSV): another damaged document that the SAME codec instance reads, to its end,
+	// before Data; what a codec learnt from one input must not leak into the next
+	Prior []byte `json:"prior,omitempty"`
 }
 
 func validCell(t *rapid.T, k reflect.Kind, layout string) string {
@@ -330,7 +333,15 @@ func genCSV[T any](t *rapid.T) Case {
 func csvProp[T any](name string) engine.AnyProp {
 	return engine.Prop[Case]{
 		ID: "C19", Subject: "csv/" + name,
-		Gen: genCSV[T],
+		Gen: func(t *rapid.T) Case {
+			c := genCSV[T](t)
+			if rapid.IntRange(0, 2).Draw(t, "reused_codec") == 0 {
+				if p := genCSV[T](t); p.Header == c.Header && len(p.Data) > 0 {
+					c.Prior = p.Data
+				}
+			}
+			return c
+		},
 		Check: func(c Case) engine.Outcome { return checkCSV[T](name, c) },
 	}
 }
@@ -343,6 +354,16 @@ func checkCSV[T any](name string, c Case) engine.Outcome {
 		return o
 	}
 	codec.Logger = quiet
+	if c.Prior != nil {
+		first := pipe.Run([][]int{}, pipe.Opts{SpinLimit: 10 * time.Second}, func(_ []<-chan int) []<-chan *T {
+			return []<-chan *T{codec.ReadFromReader(bytes.NewReader(c.Prior))}
+		})
+		if !first.OK() {
+			o.Failf("csv/%s header=%v on %q: %s: %s", name, c.Header, c.Prior, first.Verdict, first.Detail)
+			return o
+		}
+		o.Class("codec_instance_read_another_document_before")
+	}
 	res := pipe.Run([][]int{}, pipe.Opts{SpinLimit: 10 * time.Second}, func(_ []<-chan int) []<-chan *T {
 		return []<-chan *T{codec.ReadFromReader(bytes.NewReader(c.Data))}
 	})
@@ -354,12 +375,12 @@ func checkCSV[T any](name string, c Case) engine.Outcome {
 	got := res.Outs[0]
 	if !ambiguous {
 		if len(got) != len(want) {
-			o.Failf("csv/%s header=%v on %q: delivered %d rows, the well-formed prefix has %d (%+v)", name, c.Header, c.Data, len(got), len(want), want)
+			o.Failf("csv/%s header=%v on %q (same codec read %q before): delivered %d rows, the well-formed prefix has %d (%+v)", name, c.Header, c.Data, c.Prior, len(got), len(want), want)
 			return o
 		}
 		for i := range want {
 			if got[i] == nil || !equalValue(reflect.ValueOf(*got[i]), reflect.ValueOf(want[i])) {
-				o.Failf("csv/%s header=%v on %q: row %d delivered as %+v, the input says %+v", name, c.Header, c.Data, i, got[i], want[i])
+				o.Failf("csv/%s header=%v on %q (same codec read %q before): row %d delivered as %+v, the input says %+v", name, c.Header, c.Data, c.Prior, i, got[i], want[i])
 				return o
 			}
 		}
@@ -383,7 +404,7 @@ func checkCSV[T any](name string, c Case) engine.Outcome {
 		o.Class("without_header")
 	}
 	o.Add("rows_delivered", len(got))
-	o.Key = fmt.Sprint(c.Header, string(c.Data))
+	o.Key = fmt.Sprint(c.Header, string(c.Data), string(c.Prior))
 	return o
 }
 
